@@ -442,6 +442,10 @@ fn c18_worker_evicts_ttl_key_through_real_hook() {
     let mut __qs = cek::vk_slots();
     let w = vk_world(2, plain_lfu());
     cek::vk_attach(&w.cache.command_executor, &mut __qs);
+    let mut __vs = sk::vk_value_storage();
+    sk::vk_use_value_storage(&w.cache.store, &mut __vs);
+    let mut __ws = cwk::vk_weight_storage();
+    cwk::vk_use_weight_storage(apk::vk_cw(&w.cache.admission_policy), &mut __ws);
     install(&w, 0, &keys[0]);
     set_limits(&w, 12, 10);
     sup::set_now(4000, 0);
